@@ -37,11 +37,8 @@ func (l limitedDA) SubmitWithOptions(ctx context.Context, blobs []coreda.Blob, g
 	var fit []coreda.Blob
 	size := 0
 	for _, b := range blobs {
-		if len(b) > l.limit {
-			return nil, coreda.ErrBlobSizeOverLimit
-		}
-		if size+len(b) > l.limit {
-			break
+		if len(b) > l.limit || size+len(b) > l.limit {
+			break // the longest prefix that fits ends here (C16); an empty prefix is "too big" below
 		}
 		size += len(b)
 		fit = append(fit, b)
@@ -112,6 +109,8 @@ func RunProxy(c *Ctx) error {
 							b = make([]byte, limit/(n+1))
 						case i == fit && fit == 0:
 							b = make([]byte, limit+1+variant%2) // a single blob over the limit
+						case i == fit && variant >= 2:
+							b = make([]byte, limit+1+variant%2) // a blob that is itself larger than the limit, behind blobs that fit
 						case i == fit:
 							b = make([]byte, limit-size+1) // overflows the sum
 						default:
